@@ -123,6 +123,16 @@ def run(chk: Check) -> None:
         # ---- re-assembly from reply packets in any order, with repeats, with another version mixed in
         if h % 3 == 0:
             other = gen_schedule(rnd, dhw, n_max=rnd.choice((1, 3, 6)))
+            if h % 2 == 0:
+                # a small edit of the same schedule (one day's switchpoints re-drawn): usually the same number of fragments,
+                # so that a set holding fragments of both versions is "full"
+                import copy
+
+                other = copy.deepcopy(outer["schedule"])
+                donor = gen_schedule(rnd, dhw, n_max=6)
+                for _ in range(rnd.choice((1, 1, 2))):
+                    k = rnd.randrange(len(other))
+                    other[k]["switchpoints"] = donor[k]["switchpoints"]
             frags_b = S.full_sched_to_fragz({"zone_idx": outer["zone_idx"], "schedule": other})
             _reassembly(chk, D, S, rnd, zone, outer, frags, {"zone_idx": outer["zone_idx"], "schedule": other}, frags_b)
         if h < 2:
@@ -138,12 +148,15 @@ def _reassembly(chk, D, S, rnd, zone, sched_a, frags_a, sched_b, frags_b) -> Non
     def payload(frags, i):
         return {"zone_idx": zone, "frag_number": i, "total_frags": len(frags), "frag_length": len(frags[i - 1]) // 2, "fragment": frags[i - 1]}
 
-    mix = rnd.random() < 0.5 and len(frags_a) == len(frags_b)
+    mix = rnd.random() < 0.8 and len(frags_a) == len(frags_b) and frags_a != frags_b
     pool = [("a", i) for i in range(1, len(frags_a) + 1)]
     if mix:
         pool += [("b", i) for i in range(1, len(frags_b) + 1)]
     seq = [rnd.choice(pool) for _ in range(rnd.randint(len(frags_a), 3 * len(frags_a) + 2))]
-    if rnd.random() < 0.5:  # make sure a complete pass of version a is in there
+    if mix and rnd.random() < 0.6:
+        # the controller's schedule changes (a -> b) between two passes, and the new fragments arrive last-first
+        seq = [("a", i) for i in range(1, len(frags_a) + 1)] + [("b", i) for i in range(len(frags_b), 0, -1)]
+    elif rnd.random() < 0.5:  # make sure a complete pass of version a is in there
         order = list(range(1, len(frags_a) + 1))
         rnd.shuffle(order)
         seq += [("a", i) for i in order]
